@@ -202,10 +202,10 @@ theorem calcPeaksLoop_hom :
           simp only [List.map_append, List.map_cons, List.map_nil] at this
           simpa [mapL] using this
         · simp only [hp, if_false]
-          have hc := calcPeakLoop_hom merge pk (2 * (pk + 2) + 1) [(p, item, 0)] proof
+          have hc := calcPeakLoop_hom merge pk (peakFuel pk 1) [(p, item, 0)] proof
           simp only [mapQ, List.map_cons, List.map_nil] at hc
           rw [hc]
-          cases calcPeakLoop Expr.node pk (2 * (pk + 2) + 1) [(p, item, 0)] proof with
+          cases calcPeakLoop Expr.node pk (peakFuel pk 1) [(p, item, 0)] proof with
           | none => simp
           | some r =>
             have := ih rest r.2 (acc ++ [r.1])
@@ -213,7 +213,7 @@ theorem calcPeaksLoop_hom :
             simpa [mapL] using this
       | cons m2 mrest2 =>
         simp only [mapL, List.map_cons, List.length_cons, List.length_map]
-        have hc := calcPeakLoop_hom merge pk (2 * (pk + 2) + (mrest2.length + 1 + 1))
+        have hc := calcPeakLoop_hom merge pk (peakFuel pk (mrest2.length + 1 + 1))
           ((m1 :: m2 :: mrest2).map fun l => (l.1, l.2, 0)) proof
         simp only [mapQ, List.map_cons, List.map_map] at hc
         simp only [List.map_map]
@@ -221,7 +221,7 @@ theorem calcPeaksLoop_hom :
             ((fun e : Nat × Expr α × Nat => (e.1, ev e.2.1, e.2.2)) ∘ fun l : Nat × Expr α => (l.1, l.2, 0)) := by
           funext x; rfl
         rw [e, hc]
-        cases calcPeakLoop Expr.node pk (2 * (pk + 2) + (mrest2.length + 1 + 1))
+        cases calcPeakLoop Expr.node pk (peakFuel pk (mrest2.length + 1 + 1))
             ((m1.1, m1.2, 0) :: (m2.1, m2.2, 0) :: List.map (fun l => (l.1, l.2, 0)) mrest2) proof with
         | none => simp
         | some r =>
